@@ -1075,10 +1075,8 @@ func simpleJSON(v any) (string, bool) {
 		}
 		return "false", true
 	case *core.Num:
-		if !numOK(x) || !x.R.IsInt() || len(x.R.Num().String()) > 15 {
-			return "", false
-		}
-		return x.R.Num().String(), true
+		// 100, 1e2 and 100.0 are all JSON texts of the same number: not pinned
+		return "", false
 	case string:
 		for i := 0; i < len(x); i++ {
 			c := x[i]
